@@ -23,7 +23,15 @@ COQ = os.path.join(ROOT, "coq")
 BUILD = os.path.join(ROOT, "_build")
 HARNESS = os.path.join(ROOT, "harness")
 TARGET = os.path.join(BUILD, "target")
-REPO = "/repo"
+# VERIF_REPO=<scratch worktree> runs a check against a copy of the repository (used only for
+# exercising the checks against seeded changes, in parallel, without touching /repo). Registered
+# checks and committed evidence always use /repo itself.
+REPO = os.path.abspath(os.environ.get("VERIF_REPO", "/repo"))
+ALT = None if REPO == "/repo" else hashlib.sha1(REPO.encode()).hexdigest()[:10]
+if ALT:
+    BUILD = os.path.join(BUILD, "alt-" + ALT)
+    TARGET = os.path.join(BUILD, "target")
+OUTROOT = ROOT if not ALT else BUILD      # where evidence/ and replays/ are written
 GUARD = "cryptocorrosion_verif"
 BASE_RUSTFLAGS = ["--cfg", "zerocopy_derive_union_into_bytes", "--cfg", GUARD]
 NCPU = 16
@@ -89,21 +97,115 @@ def gen_coqproject():
     return False
 
 
+COQ_WARN = "-notation-overridden,-deprecated-hint-without-locality,-deprecated-instance-without-locality"
+
+
+def coq_deps():
+    """coqdep over the tree: {file.v: [dep.v ...]} (paths relative to coq/)."""
+    files = []
+    for sub in ("Lib", "Spec", "Model", "Proofs", "Run", "Props"):
+        files += sorted(os.path.relpath(f, COQ) for f in glob.glob(os.path.join(COQ, sub, "*.v")))
+    rc, out = sh(["coqdep", "-Q", ".", "CC"] + files, cwd=COQ, timeout=300)
+    deps = {f: [] for f in files}
+    for line in out.split("\n"):
+        if ":" not in line:
+            continue
+        lhs, rhs = line.split(":", 1)
+        first = lhs.split()[0] if lhs.split() else ""
+        if not first.endswith(".vo"):
+            continue
+        v = first[:-1]
+        if v in deps:
+            deps[v] = [d[:-1] for d in rhs.split() if d.endswith(".vo") and d[:-1] in deps and d[:-1] != v]
+    return deps
+
+
+def _stale(v, deps, rebuilt):
+    vo = os.path.join(COQ, v + "o")
+    if not os.path.exists(vo):
+        return True
+    t = os.path.getmtime(vo)
+    if os.path.getmtime(os.path.join(COQ, v)) > t:
+        return True
+    for d in deps[v]:
+        if d in rebuilt:
+            return True
+        dvo = os.path.join(COQ, d + "o")
+        if not os.path.exists(dvo) or os.path.getmtime(dvo) > t:
+            return True
+    return False
+
+
 def coq_make(targets=None, timeout=3000, keep_going=False):
-    """Full .vo build (no -vos) of the given targets (default: everything). Returns (ok, log)."""
-    with Lock("coq.lock"):
-        changed = gen_coqproject()
-        if changed or not os.path.exists(os.path.join(COQ, "Makefile")):
-            rc, out = sh(["coq_makefile", "-f", "_CoqProject", "-o", "Makefile"], cwd=COQ, timeout=120)
-            if rc != 0:
-                return False, out
-        cmd = ["timeout", str(timeout), "make", "-j%d" % NCPU]
-        if keep_going:
-            cmd.append("-k")
-        if targets:
-            cmd += list(targets)
-        rc, out = sh(cmd, cwd=COQ, timeout=timeout + 60)
-        return rc == 0, out
+    """Full .vo build (plain coqc, never -vos) of the given targets (default: everything) and their
+    dependency cones. Safe to run concurrently from several processes: one flock per file.
+    (setup.sh uses coq_makefile + make for the clean build; this is the incremental driver.)
+    Returns (ok, log)."""
+    from concurrent.futures import ThreadPoolExecutor as TPE
+    gen_coqproject()
+    deps = coq_deps()
+    if targets:
+        want = []
+        for t in targets:
+            t = t[:-1] if t.endswith(".vo") else t
+            if t not in deps:
+                return False, "no such file: %s" % t
+            want.append(t)
+    else:
+        want = list(deps)
+    cone, order = set(), []
+
+    def visit(v):
+        if v in cone:
+            return
+        cone.add(v)
+        for d in deps[v]:
+            visit(d)
+        order.append(v)
+    for t in want:
+        visit(t)
+    os.makedirs(os.path.join(ROOT, "_build", "locks"), exist_ok=True)
+    rebuilt, failed, logs = set(), set(), []
+    futs = {}
+    deadline = time.time() + timeout
+
+    def task(v):
+        for d in deps[v]:
+            futs[d].result()
+        if any(d in failed for d in deps[v]):
+            failed.add(v)
+            return
+        if failed and not keep_going:
+            failed.add(v)
+            return
+        lock = os.path.join(ROOT, "_build", "locks", v.replace("/", "__") + ".lock")
+        with open(lock, "w") as lf:
+            fcntl.flock(lf, fcntl.LOCK_EX)
+            try:
+                if not _stale(v, deps, rebuilt):
+                    return
+                left = max(10, int(deadline - time.time()))
+                t0 = time.time()
+                rc, out = sh(["timeout", str(left), "coqc", "-q", "-Q", ".", "CC", "-w", COQ_WARN, v], cwd=COQ,
+                             timeout=left + 30)
+                logs.append("COQC %s (%.1fs)%s" % (v, time.time() - t0, "" if rc == 0 else " FAILED rc=%d\n%s" % (rc, out[-3000:])))
+                if rc != 0:
+                    failed.add(v)
+                    vo = os.path.join(COQ, v + "o")
+                    if os.path.exists(vo):
+                        os.remove(vo)
+                else:
+                    rebuilt.add(v)
+            finally:
+                fcntl.flock(lf, fcntl.LOCK_UN)
+
+    with TPE(max_workers=NCPU) as ex:
+        for v in order:
+            futs[v] = ex.submit(task, v)
+        for v in order:
+            futs[v].result()
+    ok = not any(t in failed for t in want)
+    return ok, "\n".join(logs) + ("\nFAILED: %s" % sorted(failed) if failed else "\nbuild ok (%d files in cone, %d rebuilt)" % (len(order), len(rebuilt)))
 
 
 def forbidden_scan():
@@ -142,9 +244,7 @@ def proof_stage(prop, extra_props=()):
             rel = os.path.relpath(f, COQ)
             vo = f[:-2] + ".vo"
             # always recompile the property file itself and read what the kernel says
-            rc, out = sh(["timeout", "900", "coqc", "-Q", ".", "CC",
-                          "-w", "-notation-overridden,-deprecated-hint-without-locality,-deprecated-instance-without-locality",
-                          rel], cwd=COQ, timeout=1000)
+            rc, out = sh(["timeout", "900", "coqc", "-q", "-Q", ".", "CC", "-w", COQ_WARN, rel], cwd=COQ, timeout=1000)
             if rc != 0:
                 res["problems"].append("%s does not compile: %s" % (rel, out[-2000:]))
                 continue
@@ -228,7 +328,17 @@ def coq_explain(d, shards, index, explain):
 def cargo_build(features=(), profile="debug", rustflags=(), no_default=False, timeout=1800, bin_name="harness"):
     """Build the harness against /repo's current working tree. Returns (binary path | None, log)."""
     os.makedirs(BUILD, exist_ok=True)
-    shutil.copyfile(os.path.join(REPO, "Cargo.lock"), os.path.join(HARNESS, "Cargo.lock"))
+    harness = HARNESS
+    if ALT:   # private copy of the harness whose path dependencies point into the scratch worktree
+        harness = os.path.join(BUILD, "harness")
+        sh(["rsync", "-a", "--delete", "--exclude", "target", "--exclude", "Cargo.lock", HARNESS + "/", harness + "/"], check=True)
+        ct = open(os.path.join(HARNESS, "Cargo.toml")).read().replace('"/repo/', '"%s/' % REPO)
+        if open(os.path.join(harness, "Cargo.toml")).read() != ct:
+            open(os.path.join(harness, "Cargo.toml"), "w").write(ct)
+    lockfile = os.path.join(REPO, "Cargo.lock")
+    if not os.path.exists(lockfile):      # Cargo.lock is not tracked: a scratch worktree has none
+        lockfile = "/repo/Cargo.lock"
+    shutil.copyfile(lockfile, os.path.join(harness, "Cargo.lock"))
     env = dict(os.environ)
     env["CARGO_NET_OFFLINE"] = "true"
     env["CARGO_TARGET_DIR"] = TARGET if not rustflags else os.path.join(
@@ -242,7 +352,7 @@ def cargo_build(features=(), profile="debug", rustflags=(), no_default=False, ti
     if features:
         cmd += ["--features", ",".join(features)]
     with Lock("cargo.lock"):
-        rc, out = sh(cmd, cwd=HARNESS, env=env, timeout=timeout)
+        rc, out = sh(cmd, cwd=harness, env=env, timeout=timeout)
         if rc != 0:
             return None, out
         src = os.path.join(env["CARGO_TARGET_DIR"], profile, bin_name)
@@ -300,10 +410,10 @@ class Ctx:
         print("[%s %6.1fs]" % (self.prop, time.time() - self.t0), *a, flush=True)
 
     def replay(self, obj, tag=""):
-        os.makedirs(os.path.join(ROOT, "replays"), exist_ok=True)
+        os.makedirs(os.path.join(OUTROOT, "replays"), exist_ok=True)
         body = json.dumps(obj, indent=1, sort_keys=True)
         h = hashlib.sha1(body.encode()).hexdigest()[:10]
-        path = os.path.join(ROOT, "replays", "%s-%s%s.json" % (self.prop, tag, h))
+        path = os.path.join(OUTROOT, "replays", "%s-%s%s.json" % (self.prop, tag, h))
         open(path, "w").write(body + "\n")
         return path
 
@@ -356,8 +466,8 @@ class Ctx:
             "wall_s": round(time.time() - self.t0, 2),
             "violations": len(self.violations),
         }
-        os.makedirs(os.path.join(ROOT, "evidence"), exist_ok=True)
-        with open(os.path.join(ROOT, "evidence", "%s.json" % self.prop), "w") as f:
+        os.makedirs(os.path.join(OUTROOT, "evidence"), exist_ok=True)
+        with open(os.path.join(OUTROOT, "evidence", "%s.json" % self.prop), "w") as f:
             json.dump(ev, f, indent=1)
             f.write("\n")
         return 1 if self.violations else 0
